@@ -14,7 +14,7 @@
    Scope identity is (prefix, tags); metric values are not modelled (C01-C03).
    Definitions only. *)
 From Coq Require Import ZArith List Bool String Ascii.
-From Tally Require Import Base.Obs Gen.Params Model.Utf8 Model.Sanitize.
+From Tally Require Import Base.ObsCore Gen.Params Model.Utf8 Model.Sanitize.
 Import ListNotations.
 Open Scope Z_scope.
 
